@@ -122,7 +122,16 @@ def main():
         elif name == 'rotate_2d':
             g = f.rotate_2d(float.fromhex(op['arg']))
         elif name == 'getitem':
-            g = f[int(op['arg'])]
+            a = op['arg']
+            if 'int' in a:
+                I = int(a['int'])
+            elif 'slice' in a:
+                I = slice(*a['slice'])
+            elif 'list' in a:
+                I = [int(i) for i in a['list']]
+            else:
+                I = tuple(int(i) for i in a['tuple'])
+            g = f[I]
         elif name == 'as_nurbs':
             g = f.as_nurbs()
         elif name == 'as_vector':
